@@ -53,33 +53,48 @@ theorem lemma_parse_literal (pre sign body post : List Char)
     pyIntParseAscii 10 (pre ++ sign ++ body ++ post) =
       if overLimit (digitCount body) = true then none
       else some (if sign = ['-'] then -(Int.ofNat (bodyValue 10 body)) else Int.ofNat (bodyValue 10 body)) := by
-  obtain ⟨d, b, rfl, hd⟩ := lemma_bodyOk_head body hok hbody
+  obtain ⟨d, b, hbeq, hd⟩ := lemma_bodyOk_head body hok hbody
   have hdf := lemma_digit_facts 10 d hd
-  have htd := lemma_takeWhile_append (isBodyChar 10) (d :: b) post hbody
+  have htd := lemma_takeWhile_append (isBodyChar 10) body post hbody
     (fun c hc => (lemma_space_not_body c (hpost c hc)).1)
   have hall : post.all isIntSpace = true := List.all_eq_true.mpr hpost
+  have e0 : body ++ post = d :: (b ++ post) := by rw [hbeq]; rfl
   unfold pyIntParseAscii
   rw [List.append_assoc, List.append_assoc, lemma_dropWhile_all _ pre _ hpre]
   rcases hsign with rfl | rfl | rfl
-  · have e1 : ([] ++ (d :: b ++ post)).dropWhile isIntSpace = d :: b ++ post := by
-      simp [hdf.2.1]
-    have e2 : skipSign (d :: b ++ post) = d :: b ++ post := by
-      simp [skipSign, hdf.2.2.1, hdf.2.2.2.1]
-    have e3 : ((d :: b ++ post).head? == some '-') = false := by simp [hdf.2.2.1]
-    simp only [e1, e2, e3, htd.1, htd.2, hok, hall, if_false, Bool.not_true, Bool.false_eq_true]
-    simp
-  · have e1 : (['+'] ++ (d :: b ++ post)).dropWhile isIntSpace = '+' :: (d :: b ++ post) := by
+  · have e1 : ([] ++ (body ++ post)).dropWhile isIntSpace = body ++ post := by
+      rw [e0]; simp [hdf.2.1]
+    have e2 : skipSign (body ++ post) = body ++ post := by
+      rw [e0]; simp [skipSign, hdf.2.2.1, hdf.2.2.2.1]
+    have e3 : ((body ++ post).head? == some '-') = false := by rw [e0]; simp [hdf.2.2.1]
+    simp only [e1, e2, e3]
+    simp [htd.1, htd.2, hok, hall]
+  · have e1 : (['+'] ++ (body ++ post)).dropWhile isIntSpace = '+' :: (body ++ post) := by
       simp [isIntSpace]
-    have e2 : skipSign ('+' :: (d :: b ++ post)) = d :: b ++ post := by simp [skipSign]
-    have e3 : (('+' :: (d :: b ++ post)).head? == some '-') = false := by decide
-    simp only [e1, e2, e3, htd.1, htd.2, hok, hall, if_false, Bool.not_true, Bool.false_eq_true]
-    simp
-  · have e1 : (['-'] ++ (d :: b ++ post)).dropWhile isIntSpace = '-' :: (d :: b ++ post) := by
+    have e2 : skipSign ('+' :: (body ++ post)) = body ++ post := by simp [skipSign]
+    have e3 : (('+' :: (body ++ post)).head? == some '-') = false := by
+      rw [List.head?_cons]; decide
+    simp only [e1, e2, e3]
+    simp [htd.1, htd.2, hok, hall]
+  · have e1 : (['-'] ++ (body ++ post)).dropWhile isIntSpace = '-' :: (body ++ post) := by
       simp [isIntSpace]
-    have e2 : skipSign ('-' :: (d :: b ++ post)) = d :: b ++ post := by simp [skipSign]
-    have e3 : (('-' :: (d :: b ++ post)).head? == some '-') = true := by decide
-    simp only [e1, e2, e3, htd.1, htd.2, hok, hall, if_false, Bool.not_true, Bool.false_eq_true]
-    simp
+    have e2 : skipSign ('-' :: (body ++ post)) = body ++ post := by simp [skipSign]
+    have e3 : (('-' :: (body ++ post)).head? == some '-') = true := by
+      rw [List.head?_cons]; decide
+    simp only [e1, e2, e3]
+    simp [htd.1, htd.2, hok, hall]
+
+theorem lemma_mem_takeWhile {α} (p : α → Bool) (l : List α) (x : α) (h : x ∈ l.takeWhile p) :
+    p x = true := by
+  induction l with
+  | nil => simp at h
+  | cons a l ih =>
+    by_cases ha : p a = true
+    · simp only [List.takeWhile_cons, ha, if_true, List.mem_cons] at h
+      rcases h with rfl | h
+      · exact ha
+      · exact ih h
+    · simp [List.takeWhile_cons, ha] at h
 
 theorem lemma_skipSign_cases (s : List Char) :
     (∃ r, s = '-' :: r ∧ skipSign s = r ∧ (s.head? == some '-') = true) ∨
@@ -91,7 +106,7 @@ theorem lemma_skipSign_cases (s : List Char) :
     by_cases h1 : c = '-'
     · left; subst h1; exact ⟨r, rfl, by simp [skipSign], by simp⟩
     · by_cases h2 : c = '+'
-      · right; left; subst h2; exact ⟨r, rfl, by simp [skipSign], by decide⟩
+      · right; left; subst h2; exact ⟨r, rfl, by simp [skipSign], by rw [List.head?_cons]; decide⟩
       · right; right; simp [skipSign, h1, h2]
 
 theorem lemma_literal_of_parse (t : List Char) (n : Int) (h : pyIntParseAscii 10 t = some n) :
@@ -104,12 +119,13 @@ theorem lemma_literal_of_parse (t : List Char) (n : Int) (h : pyIntParseAscii 10
   unfold pyIntParseAscii at h
   simp only [show ((10 : Nat) = 16) = False from by simp, if_false] at h
   have ht : t = t.takeWhile isIntSpace ++ t.dropWhile isIntSpace := List.takeWhile_append_dropWhile.symm
-  have hpre : ∀ c ∈ t.takeWhile isIntSpace, isIntSpace c = true := fun c hc => (List.mem_takeWhile_imp hc)
+  have hpre : ∀ c ∈ t.takeWhile isIntSpace, isIntSpace c = true := fun c hc => lemma_mem_takeWhile _ _ c hc
+  generalize t.takeWhile isIntSpace = pre at ht hpre
   generalize t.dropWhile isIntSpace = s1 at h ht
   have hs2 : skipSign s1 = (skipSign s1).takeWhile (isBodyChar 10) ++ (skipSign s1).dropWhile (isBodyChar 10) :=
     List.takeWhile_append_dropWhile.symm
   have hb : ∀ c ∈ (skipSign s1).takeWhile (isBodyChar 10), isBodyChar 10 c = true :=
-    fun c hc => List.mem_takeWhile_imp hc
+    fun c hc => lemma_mem_takeWhile _ _ c hc
   generalize hbd : (skipSign s1).takeWhile (isBodyChar 10) = body at h hs2 hb
   generalize hps : (skipSign s1).dropWhile (isBodyChar 10) = post at h hs2
   cases hok : bodyOk body with
@@ -134,5 +150,98 @@ theorem lemma_literal_of_parse (t : List Char) (n : Int) (h : pyIntParseAscii 10
         · refine ⟨_, [], body, post, ?_, hpre, hpost, Or.inl rfl, hb, hok, hlim, ?_⟩
           · rw [ht]; rw [hsk] at hs2; rw [hs2]; simp
           · simp only [hneg, Bool.false_eq_true, if_false] at h; simp [← h]
+
+/-! ### the model's character predicates against the declarative grammar -/
+
+theorem lemma_decChars_facts : ∀ c ∈ decChars,
+    isDigitIn 10 c = true ∧ digitVal c = some (c.toNat - '0'.toNat) ∧ c ≠ '_' := by decide
+
+theorem lemma_dec_ofNat : ∀ n, n < 58 → 48 ≤ n → Char.ofNat n ∈ decChars := by decide
+
+theorem lemma_digit10_iff (c : Char) : isDigitIn 10 c = true ↔ c ∈ decChars := by
+  constructor
+  · intro h
+    by_cases hr : 48 ≤ c.toNat ∧ c.toNat ≤ 57
+    · have := lemma_dec_ofNat c.toNat (by omega) hr.1
+      rwa [Char.ofNat_toNat] at this
+    · exfalso
+      unfold isDigitIn digitVal at h
+      simp only [hr, if_false] at h
+      split at h
+      · rename_i d hd
+        split at hd
+        · simp at hd; simp at h; omega
+        · split at hd
+          · simp at hd; simp at h; omega
+          · simp at hd
+      · simp at h
+  · intro h; exact (lemma_decChars_facts c h).1
+
+theorem lemma_body_char_iff (c : Char) : isBodyChar 10 c = true ↔ (c ∈ decChars ∨ c = '_') := by
+  simp [isBodyChar, lemma_digit10_iff]
+
+theorem lemma_double_iff (body : List Char) :
+    hasDoubleUnderscore body = true ↔ ∃ l r, body = l ++ '_' :: '_' :: r := by
+  induction body with
+  | nil => simp [hasDoubleUnderscore]
+  | cons a rest ih =>
+    cases rest with
+    | nil =>
+      simp only [hasDoubleUnderscore, Bool.false_eq_true, false_iff]
+      rintro ⟨l, r, h⟩
+      have := congrArg List.length h
+      simp at this
+      omega
+    | cons b rest =>
+      simp only [hasDoubleUnderscore, Bool.or_eq_true, Bool.and_eq_true, beq_iff_eq, ih]
+      constructor
+      · rintro (⟨rfl, rfl⟩ | ⟨l, r, h⟩)
+        · exact ⟨[], rest, rfl⟩
+        · exact ⟨a :: l, r, by rw [h]; rfl⟩
+      · rintro ⟨l, r, h⟩
+        cases l with
+        | nil =>
+          simp only [List.nil_append, List.cons.injEq] at h
+          exact Or.inl ⟨h.1, h.2.1⟩
+        | cons x l =>
+          simp only [List.cons_append, List.cons.injEq] at h
+          exact Or.inr ⟨l, r, h.2⟩
+
+theorem lemma_groups_iff (body : List Char) :
+    ((∀ c ∈ body, isBodyChar 10 c = true) ∧ bodyOk body = true) ↔ DigitGroups body := by
+  unfold DigitGroups
+  have hd : (∀ l r, body ≠ l ++ '_' :: '_' :: r) ↔ hasDoubleUnderscore body = false := by
+    rw [← Bool.not_eq_true, lemma_double_iff]
+    constructor
+    · rintro h ⟨l, r, e⟩; exact h l r e
+    · intro h l r e; exact h ⟨l, r, e⟩
+  rw [hd]
+  simp only [lemma_body_char_iff, bodyOk, Bool.and_eq_true, Bool.not_eq_true', bne_iff_ne, ne_eq,
+    List.isEmpty_eq_false_iff]
+  constructor
+  · rintro ⟨h1, ⟨⟨h2, h3⟩, h4⟩, h5⟩; exact ⟨h2, h1, h3, h4, h5⟩
+  · rintro ⟨h2, h1, h3, h4, h5⟩; exact ⟨h1, ⟨⟨h2, h3⟩, h4⟩, h5⟩
+
+theorem lemma_value_foldl (body : List Char) (h : ∀ c ∈ body, c ∈ decChars ∨ c = '_') (acc : Nat) :
+    body.foldl (bodyStep 10) acc = Nat.ofDigitChars 10 (body.filter (fun c => c != '_')) acc := by
+  induction body generalizing acc with
+  | nil => simp
+  | cons a body ih =>
+    have ih' := ih (fun c hc => h c (by simp [hc]))
+    rcases h a (by simp) with ha | rfl
+    · have hf := lemma_decChars_facts a ha
+      have hne : (a != '_') = true := by simpa using hf.2.2
+      have hfl : (a :: body).filter (fun c => c != '_') = a :: body.filter (fun c => c != '_') := by
+        simp [List.filter_cons, hf.2.2]
+      rw [List.foldl_cons, hfl, Nat.ofDigitChars_cons, ih']
+      simp only [bodyStep, hf.2.1]
+      rw [Nat.mul_comm]
+    · have hfl : ('_' :: body).filter (fun c => c != '_') = body.filter (fun c => c != '_') := by
+        simp [List.filter_cons]
+      rw [List.foldl_cons, hfl, ih']
+      rfl
+
+theorem lemma_value_dec (body : List Char) (h : ∀ c ∈ body, c ∈ decChars ∨ c = '_') :
+    bodyValue 10 body = decValue body := lemma_value_foldl body h 0
 
 end Oslo.Scalars
